@@ -4,6 +4,7 @@ import (
 	"fmt"
 	"go/ast"
 	"go/types"
+	"os"
 	"strings"
 
 	"golang.org/x/tools/go/ssa"
@@ -205,6 +206,9 @@ func entitlementGuard(c *Ctx, row entRow, h *ssa.Function) {
 				for _, pr := range [][2]*ir.Expr{{e.Args[0], e.Args[1]}, {e.Args[1], e.Args[0]}} {
 					if isAddrOf(pr[0], row.Field) {
 						other := w.Expand(pr[1], 5)
+						if os.Getenv("MCDEBUG") == "ent" {
+							fmt.Fprintln(os.Stderr, "entsigner other:", pr[1].String(), "=>", other.String())
+						}
 						if mentionsStateField(other, secEntParams, "EntSigners") != nil {
 							return true
 						}
@@ -262,6 +266,25 @@ func entitlementGuard(c *Ctx, row entRow, h *ssa.Function) {
 	}
 	for i, s := range sites {
 		g := w.Guarded(h, s, m, 3)
+		if !g {
+			// the check may stand inside the step (the keeper vets the signer itself before it writes): then every
+			// state-changing instruction the step reaches is behind it, in the call-expanded view of the handler
+			if call, ok := s.(ssa.CallInstruction); ok {
+				inside := map[ssa.Instruction]bool{}
+				for _, gfn := range w.CalleesOf(call) {
+					for f2 := range w.Reachable([]*ssa.Function{gfn}) {
+						for _, e := range w.EffectsOf(f2) {
+							if isMutation(e) && e.Kind != "GlobalWrite" {
+								inside[e.Site] = true
+							}
+						}
+					}
+				}
+				if len(inside) > 0 && len(w.FlatGuarded(h, func(in ssa.Instruction) bool { return inside[in] }, m, 3)) == 0 {
+					g = true
+				}
+			}
+		}
 		r.Require(g, "A2.entitlement-guard", fmt.Sprintf("%s|site%d:%s", key, i, siteName(c, s)), pos(c, s), "state-changing step is reachable only when "+want, "a path reaches it without that check")
 	}
 }
